@@ -454,6 +454,21 @@ def r6_filters(ctx: Context) -> None:
             raise AnalysisError(f"{f.loc(c)}: the filter is not applied inside a single comprehension over the ensemble members; cannot decide R6")
         nf = normaliser(ctx.prog, f, inline_locals=False)
         ok = len(c.args) == 1 and str(nf.rat(c.args[0])) == str(nf.rat(parse_expr(f"{sim}[{j}, :, {i}]"))) and src(gen.iter) in (f"range({sim}.shape[0])", f"range(len({sim}))", f"range(0, {sim}.shape[0])")
+        if not ok and len(c.args) == 1:
+            # the members visited by value: `for series in sim[:, :, i]` binds series to sim[_I_, :, i], once per member
+            from ..util import IDX, _substitute, loop_binding
+            try:
+                env_, counts = loop_binding(gen.target, gen.iter)
+            except AnalysisError:
+                env_, counts = {}, []
+            if env_:
+                arg = c.args[0]
+                for nm_, ex_ in env_.items():
+                    arg = _substitute(arg, nm_, ex_)
+                ast.fix_missing_locations(arg)
+                forms = {str(nf.rat(parse_expr(t))) for t in (f"{sim}[{IDX}, :, {i}]", f"{sim}[:, :, {i}][{IDX}]", f"{sim}[{IDX}][:, {i}]")}
+                cnts = {str(nf.rat(parse_expr(t))) for t in (f"len({sim})", f"{sim}.shape[0]", f"len({sim}[:, :, {i}])", f"{sim}[:, :, {i}].shape[0]")}
+                ok = str(nf.rat(arg)) in forms and any(str(nf.rat(k)) in cnts for k in counts)
         ctx.check(ok, "R6.pairing", "BaseLoss._filter_data:filter-branch", "filter i is applied to coordinate i of every ensemble member j",
                   f"filter applied as `{src(c)}` for `{j}` in `{src(gen.iter)}`: filter/coordinate/member indices do not pair up", f, c)
     # compute_loss: filters go to the simulated data only; the real series reaches compute_loss_1d unfiltered
